@@ -1,9 +1,74 @@
 package main
 
 import (
+	"fmt"
+	"strconv"
+	"sync"
+	"unicode/utf8"
+
 	"verif/ev"
 	"verif/gen"
 )
 
-// c20EndToEnd: filled in once the table reader exists (grammar spelling a literal -> emitted transition test).
-var c20EndToEnd = func(t *gen.Tools, r *ev.Run, root, tier string) {}
+// c20EndToEnd: a grammar spelling a rune literal is run through the real generator; the emitted transition test of
+// the start state must be `r == <code point Go assigns to the literal>` (gocc reads the literal as Go does).
+func c20EndToEnd(t *gen.Tools, r *ev.Run, root, tier string) {
+	sw, done := newSweeper(t, "c20e")
+	defer done()
+	var lits []string
+	cps := []rune{0, 1, 7, 8, 9, 10, 11, 12, 13, 0x1f, ' ', '!', '"', '%', '\'', '0', '9', 'A', 'Z', '\\', '`', 'a', 'z', '{', '}', '~', 0x7f, 0x80, 0xa0, 0xff, 0x100, 0x7ff, 0x800, 0xfff, 0x1000, 0xd7ff, 0xe000, 0xfffd, 0xfffe, 0xffff, 0x10000, 0x1f600, 0x10fffe, 0x10ffff}
+	if tier == "thorough" {
+		for c := rune(0); c < 0x300; c++ {
+			cps = append(cps, c)
+		}
+		for c := rune(0x10000); c < 0x110000; c += 0x1111 {
+			cps = append(cps, c)
+		}
+	}
+	for _, cp := range cps {
+		if cp != '\n' && cp != '\'' && cp != '\\' && cp != '\r' {
+			var b [4]byte
+			n := utf8.EncodeRune(b[:], cp)
+			lits = append(lits, "'"+string(b[:n])+"'")
+		}
+		lits = append(lits, fmt.Sprintf(`'\U%08x'`, cp), fmt.Sprintf(`'\U%08X'`, cp))
+		if cp <= 0xffff {
+			lits = append(lits, fmt.Sprintf(`'\u%04x'`, cp), fmt.Sprintf(`'\u%04X'`, cp))
+		}
+		if cp <= 0xff {
+			lits = append(lits, fmt.Sprintf(`'\x%02x'`, cp), fmt.Sprintf(`'\x%02X'`, cp), fmt.Sprintf(`'\%03o'`, cp))
+		}
+	}
+	lits = append(lits, `'\a'`, `'\b'`, `'\f'`, `'\n'`, `'\r'`, `'\t'`, `'\v'`, `'\\'`, `'\''`)
+	texts := make([]string, len(lits))
+	for i, l := range lits {
+		texts[i] = "t : " + l + " ;\n"
+	}
+	var mu sync.Mutex
+	sw.run(texts, nil, true, false, func(o *GenOut) {
+		lit := lits[o.Idx]
+		want, _, tail, err := strconv.UnquoteChar(lit[1:], '\'')
+		if err != nil || tail != "'" {
+			ev.Inconsistent("end-to-end literal %q is not a valid Go rune literal", lit)
+		}
+		mu.Lock()
+		defer mu.Unlock()
+		r.Add("end_to_end_literals", 1)
+		r.Add("evaluations", 1)
+		bad := ""
+		switch {
+		case o.Res.Hang || o.Res.Exit != 0:
+			bad = fmt.Sprintf("gocc refuses the valid rune literal (exit %d): %s", o.Res.Exit, oneLine(o.Res.Stdout+o.Res.Stderr))
+		case o.ReadErr != "":
+			bad = "unreadable tables: " + o.ReadErr
+		case len(o.Lex.States) < 1 || len(o.Lex.States[0].Cases) != 1 || o.Lex.States[0].Cases[0].Lo != want || o.Lex.States[0].Cases[0].Hi != want:
+			bad = fmt.Sprintf("the generated lexer tests for %v, Go reads the literal as %#x", o.Lex.States[0].Cases, want)
+		}
+		if bad != "" {
+			r.Violate("c20", "e2e "+lit, fmt.Sprintf("grammar  t : %s ;  : %s", lit, bad), map[string]any{"subject": "end-to-end", "lit": lit, "want": fmt.Sprintf("%#x", want), "got": bad})
+			return
+		}
+		r.Distinct("e2e" + lit)
+	})
+	sw.checkCross()
+}
